@@ -1,5 +1,6 @@
 mod api;
 mod bencode;
+mod hostile;
 mod krpc;
 mod props;
 mod rawnet;
